@@ -346,7 +346,7 @@ def rule_c05_exploitability(prog: Program, col: Collector) -> None:
     want2 = ("ifexp", ("cmp", "not in", ("attr", SELF, "player"), cp), ("call", ("attr", G, "get_lower_bound"), (cp,), ()),
              ("call", ("attr", G, "get_upper_bound"), (cp,), ()))
     r1 = list(g1ft.of_kind("return"))
-    col.check(len(r1) == 1 and r1[0].value in (want, want2), g1.where(), g1.short, "get_value = upper bound if player in coalition else lower bound",
+    col.check(bool(r1) and g1ft.result() in (want, want2), g1.where(), g1.short, "get_value = upper bound if player in coalition else lower bound",
               construct="mgg-scalar", necessity="the scalar accessor must agree with the vector accessor (sibling agreement)")
 
     col.rule("X2", "exploitability = sum over players p of Shapley_p(MaxGainGame(game, p)) - v(N)", 3)
